@@ -7,8 +7,10 @@ import (
 	"io"
 	"os"
 	"path/filepath"
+	"runtime"
 	"strconv"
 	"strings"
+	"sync/atomic"
 	"time"
 
 	"github.com/Breeze0806/go/log"
@@ -31,7 +33,18 @@ func main() {
 	outdir := flag.String("replaydir", "", "directory for witness files")
 	flag.Parse()
 
-	gobinlog.SetLogger(log.NewDefaultLogger(io.Discard, log.ErrorLevel, "[verif]"))
+	// The library reports through a logger its user supplies. Ours discards
+	// the text and, at the Info/Error/Print call sites (reader exit, end of
+	// parsing, connection close, driver errors), sometimes yields or sleeps
+	// briefly: a slow logger is a legitimate environment, and it widens the
+	// interleavings around exactly those points. Debug calls (one per event)
+	// are left alone. The shards whose number is divisible by 4 keep a plain
+	// discarding logger.
+	if *shard%4 == 0 {
+		gobinlog.SetLogger(log.NewDefaultLogger(io.Discard, log.ErrorLevel, "[verif]"))
+	} else {
+		gobinlog.SetLogger(&perturbLogger{seed: *seed*1000003 + uint64(*shard)})
+	}
 
 	chk := core.Lookup(*prop)
 	if chk == nil {
@@ -96,3 +109,28 @@ func residentBytes() uint64 {
 	pages, _ := strconv.ParseUint(f[1], 10, 64)
 	return pages * uint64(os.Getpagesize())
 }
+
+// perturbLogger: see main.
+type perturbLogger struct {
+	seed uint64
+	n    atomic.Uint64
+}
+
+func (l *perturbLogger) perturb() {
+	x := (l.n.Add(1) + l.seed) * 0x9e3779b97f4a7c15
+	x ^= x >> 29
+	switch x % 16 {
+	case 0, 1, 2, 3:
+		runtime.Gosched()
+	case 4, 5:
+		time.Sleep(time.Duration(20+x>>8%200) * time.Microsecond)
+	case 6:
+		time.Sleep(time.Duration(1+x>>8%3) * time.Millisecond)
+	}
+}
+
+func (l *perturbLogger) Errorf(string, ...interface{}) { l.perturb() }
+func (l *perturbLogger) Infof(string, ...interface{})  { l.perturb() }
+func (l *perturbLogger) Debugf(string, ...interface{}) {}
+func (l *perturbLogger) Print(...interface{})          { l.perturb() }
+func (l *perturbLogger) Printf(string, ...interface{}) { l.perturb() }
